@@ -10,7 +10,9 @@ open SeqEnc DecM
 /-- the domain of one attribute: what the C++ containers guarantee (`uint8_t` component count,
     `uint32_t` unique id, `int` value counts, byte buffers), a named attribute type and a valid
     data type (the decoder rejects others), structural validity (C03), float32 patterns as explicit
-    quantization parameters, and the float oracle hypothesis `octaRowOK` for normals -/
+    quantization parameters, and for normals the hypothesis that the octahedral coordinates computed by
+    the float code are canonical grid points (`octaEntryOK`; implied by the float oracle hypothesis
+    `octaRowOK`) -/
 structure AttOK (a : Attribute) (o : AttOpts) (n : Nat) : Prop where
   valid : a.valid n = true
   bytes : IsBytes a.values
@@ -21,7 +23,7 @@ structure AttOK (a : Attribute) (o : AttOpts) (n : Nat) : Prop where
   size : n * a.numComponents < 2 ^ 31
   explicit : ∀ org r, o.explicitQuant = some (org, r) → r < 2 ^ 32 ∧ ∀ m ∈ org, m < 2 ^ 32
   normals : encoderType a o = 3 → ∀ t, Octa.init o.quantBits.toNat = some t →
-    ∀ r ∈ pointRows a n, octaRowOK t r = true
+    ∀ r ∈ pointRows a n, octaEntryOK t (octaRow t r) = true
 
 theorem encoderType_cases (a : Attribute) (o : AttOpts) :
     (encoderType a o = 0) ∨
@@ -158,6 +160,7 @@ structure AttFacts (n : Nat) (a : Attribute) (e : AttEnc) : Prop where
     1 ≤ q ∧ q ≤ 30 ∧ mins.length = a.numComponents ∧ range < 2 ^ 32 ∧ ∀ m ∈ mins, m < 2 ^ 32
   tr3 : e.encType = 3 → ∃ q : Nat, e.transform = .octahedron (q : Nat) ∧ e.transformBytes = [q % 256] ∧
     2 ≤ q ∧ q ≤ 30
+  range : ∀ x ∈ e.portable, -2 ^ 31 ≤ x ∧ x < 2 ^ 31
 
 theorem attFacts (ch : Choices) (opts : EncOpts) (n i : Nat) (a : Attribute) (e : AttEnc)
     (hn : 0 < n) (hok : AttOK a (opts.att i) n)
@@ -168,7 +171,7 @@ theorem attFacts (ch : Choices) (opts : EncOpts) (n i : Nat) (a : Attribute) (e 
   rcases encodeAttribute_cases ch opts n i a e h with ⟨h0, rfl⟩ | ⟨h1, portable, vb, hp, hvb, rfl⟩ |
       ⟨h2, mins, range, q, vb, hq, hvb, rfl⟩ | ⟨h3, hnc3, t, vb, ht, hvb, rfl⟩
   · refine ⟨rfl, by simp, by simp, by simp, fun _ => ⟨rfl, ?_, rfl, rfl, rfl⟩, by simp, by simp,
-      by simp, by simp, by simp⟩
+      by simp, by simp, by simp, by simp⟩
     simp only
     rw [flatten_length_uniform a.stride _ hrs, hrl, Attribute.stride]
   · rcases encoderType_cases a (opts.att i) with h' | ⟨_, hd1, hd6⟩ | ⟨h', _⟩ | ⟨h', _⟩ <;>
@@ -190,7 +193,7 @@ theorem attFacts (ch : Choices) (opts : EncOpts) (n i : Nat) (a : Attribute) (e 
       | some m => rw [hm] at hr; simp only [List.mem_map] at hr; obtain ⟨p, _, rfl⟩ := hr; exact hva p
     obtain ⟨p1, p2, p3⟩ := integerPortable_spec a ⟨hd1, hd6⟩ n (pointRows a n) portable hrl hbytes hp
     refine ⟨rfl, by simp, by simp, by simp, by simp, by simp, fun _ v hv => ?_,
-      fun _ => ⟨rfl, rfl, hd1, hd6, p2⟩, by simp, by simp⟩
+      fun _ => ⟨rfl, rfl, hd1, hd6, p2⟩, by simp, by simp, p3⟩
     simp only [show ((1:Nat) == 3) = false from rfl, Bool.false_eq_true, if_false]
     exact runs_intValues ch _ opts.builtin i 1 a.numComponents n _ none a.numValues portable vb v hv
       (by omega) hn p1 (by omega) p3 hnv (by simp) hvb
@@ -199,7 +202,7 @@ theorem attFacts (ch : Choices) (opts : EncOpts) (n i : Nat) (a : Attribute) (e 
     obtain ⟨q1, q30, _, qml, qr, qm⟩ := quantizationParams_spec a (opts.att i) mins range q hok.explicit hq
     obtain ⟨p1, p3⟩ := quantizedPortable_spec mins range q a.numComponents (pointRows a n)
     refine ⟨rfl, by simp, fun _ => hd9, by simp, by simp, by simp, fun _ v hv => ?_, by simp,
-      fun _ => ⟨mins, range, q, rfl, rfl, q1, q30, qml, qr, qm⟩, by simp⟩
+      fun _ => ⟨mins, range, q, rfl, rfl, q1, q30, qml, qr, qm⟩, by simp, p3⟩
     simp only [show ((2:Nat) == 3) = false from rfl, Bool.false_eq_true, if_false]
     exact runs_intValues ch _ opts.builtin i 2 a.numComponents n _ none a.numValues _ vb v hv
       (by omega) hn (by rw [p1, hrl]) (by omega) p3 hnv (by simp) hvb
@@ -213,7 +216,7 @@ theorem attFacts (ch : Choices) (opts : EncOpts) (n i : Nat) (a : Attribute) (e 
       · omega
     obtain ⟨p1, p3, p4⟩ := octaPortable_spec t hwf (pointRows a n) (hok.normals h3 t ht)
     refine ⟨rfl, by simp, by simp, fun _ => ⟨hnc3, hd9⟩, by simp, by simp, fun _ v hv => ?_, by simp,
-      by simp, fun _ => ⟨_, rfl, rfl, hq230.1, hq230.2⟩⟩
+      by simp, fun _ => ⟨_, rfl, rfl, hq230.1, hq230.2⟩, p3⟩
     simp only [show ((3:Nat) == 3) = true from rfl, if_true]
     rw [setMaxQuantizedValue_pow _ hq230.1 hq230.2, ht] at hvb
     exact runs_intValues ch _ opts.builtin i 3 2 n _ _ a.numValues _ vb v hv
@@ -284,16 +287,17 @@ theorem map_singleton_flatten {α : Type} (f : α → Nat) (l : List α) :
 
 /-- `SequentialAttributeDecodersController` (descriptors, decoder types, portable values, transform
     data, inverse transforms) reads back the output of the encoder's controller -/
-theorem runs_decodeSequentialAttributes (n v : Nat) (hv : bsVersion 2 0 ≤ v) (hn31 : n < 2 ^ 31)
+theorem runs_decodeSequentialAttributes (dopts : DecOpts) (n v : Nat) (hv : bsVersion 2 0 ≤ v)
+    (hn31 : n < 2 ^ 31)
     (pairs : List (Attribute × AttEnc)) (hne : pairs.length ≠ 0) (h32 : pairs.length < 2 ^ 32)
     (hok : ∀ p ∈ pairs, AttFacts n p.1 p.2 ∧ p.1.attType < 5 ∧ p.1.dataType ≤ 11 ∧
       1 ≤ dataTypeLength p.1.dataType ∧ 1 ≤ p.1.numComponents ∧
       p.1.numComponents ≤ 255 ∧ p.1.uniqueId < 2 ^ 32) :
-    Runs (decodeSequentialAttributes {} n) v
+    Runs (decodeSequentialAttributes dopts n) v
       (encVarint pairs.length ++ (pairs.map (·.2)).flatMap (fun e => descBytes e.desc)
         ++ (pairs.map (·.2)).map (·.encType) ++ (pairs.map (·.2)).flatMap (·.valueBytes)
         ++ (pairs.map (·.2)).flatMap (·.transformBytes))
-      (pairs.map fun p => expectedAttribute n p.1 p.2) v := by
+      (pairs.map fun p => expectedAttributeSkip dopts.skip n p.1 p.2) v := by
   unfold decodeSequentialAttributes
   simp only [List.append_assoc]
   rw [← List.append_assoc]
@@ -403,37 +407,51 @@ theorem runs_decodeSequentialAttributes (n v : Nat) (hv : bsVersion 2 0 ≤ v) (
   refine RunsAll.mapM' (RunsAll.of_map pairs (fun p => st2 p.2) (fun _ => []) _ (fun p hp => ?_))
   obtain ⟨f, -⟩ := hok p hp
   dsimp only [st2]
+  have hat : p.2.desc.attType = p.1.attType := by rw [f.desc, descOf]
   by_cases h0 : p.2.encType = 0
   · obtain ⟨r1, r2, r3, r4, r5⟩ := f.raw0 h0
     rw [if_pos (by simp [h0])]
     refine Runs.of_eq (Runs.pure _ v) rfl rfl ?_
-    simp [expectedAttribute, h0, f.desc]
+    simp [expectedAttributeSkip, expectedAttribute, h0, f.desc]
   · rw [if_neg (by simpa using h0)]
-    rw [if_neg (by simp)]
-    by_cases h1 : p.2.encType = 1
-    · obtain ⟨t1, t2, d1, d6, t5⟩ := f.tr1 h1
-      rw [h1]
-      simp only []
-      refine Runs.bind0 (Runs.require (by
-        have hd : p.2.desc.dataType = p.1.dataType := by rw [f.desc, descOf]
-        simp only [hd, ge_iff_le, Bool.and_eq_true, decide_eq_true_eq]; omega) v) ?_
+    have hne0 : (p.2.encType != 0) = true := by simpa using h0
+    by_cases hs : dopts.skip.contains p.1.attType = true
+    · rw [if_pos (by rw [hat]; exact hs)]
       refine Runs.of_eq (Runs.pure _ v) rfl rfl ?_
+      simp only [expectedAttributeSkip, hne0, hs, Bool.and_self, if_true]
       rw [f.desc, descOf]
-      simp only [expectedAttribute, h1]
-      rw [t5]
-      rfl
-    · by_cases h2 : p.2.encType = 2
-      · obtain ⟨mins, range, q, t1, t2, q1, q30, ml, rl, mm⟩ := f.tr2 h2
-        rw [h2, t1]
+    · have hs' : dopts.skip.contains p.1.attType = false := by simpa using hs
+      have hexp : expectedAttributeSkip dopts.skip n p.1 p.2 = expectedAttribute n p.1 p.2 := by
+        simp only [expectedAttributeSkip, hs', Bool.and_false, Bool.false_eq_true, if_false]
+      rw [if_neg (by rw [hat]; exact hs), hexp]
+      by_cases h1 : p.2.encType = 1
+      · obtain ⟨t1, t2, d1, d6, t5⟩ := f.tr1 h1
+        rw [h1]
         simp only []
+        refine Runs.bind0 (Runs.require (by
+          have hd : p.2.desc.dataType = p.1.dataType := by rw [f.desc, descOf]
+          simp only [hd, ge_iff_le, Bool.and_eq_true, decide_eq_true_eq]; omega) v) ?_
         refine Runs.of_eq (Runs.pure _ v) rfl rfl ?_
-        simp [expectedAttribute, h2, t1, f.desc]
-      · have h3 : p.2.encType = 3 := by have := f.ty; omega
-        obtain ⟨q, t1, t2, q2, q30⟩ := f.tr3 h3
-        rw [h3, t1]
-        simp only []
-        refine Runs.bind0 (Runs.require (by simp; omega) v) ?_
-        refine Runs.of_eq (Runs.pure _ v) rfl rfl ?_
-        simp [expectedAttribute, h3, t1, f.desc]
+        rw [f.desc, descOf]
+        simp only [expectedAttribute, h1]
+        rw [t5]
+        rfl
+      · by_cases h2 : p.2.encType = 2
+        · obtain ⟨mins, range, q, t1, t2, q1, q30, ml, rl, mm⟩ := f.tr2 h2
+          rw [h2, t1]
+          simp only []
+          refine Runs.of_eq (Runs.pure _ v) rfl rfl ?_
+          simp [expectedAttribute, h2, t1, f.desc]
+        · have h3 : p.2.encType = 3 := by have := f.ty; omega
+          obtain ⟨q, t1, t2, q2, q30⟩ := f.tr3 h3
+          rw [h3, t1]
+          simp only []
+          refine Runs.bind0 (Runs.require (by simp; omega) v) ?_
+          refine Runs.of_eq (Runs.pure _ v) rfl rfl ?_
+          simp [expectedAttribute, h3, t1, f.desc]
+
+theorem expectedAttributeSkip_nil (n : Nat) (a : Attribute) (e : AttEnc) :
+    expectedAttributeSkip [] n a e = expectedAttribute n a e := by
+  simp [expectedAttributeSkip]
 
 end Draco
